@@ -3645,7 +3645,9 @@ private:
 
     basic_block_t &cur = get_node(curId);
 
-    if (has_one_child(curId) && has_one_parent(curId)) {
+    // The entry block is never folded into a predecessor (it has one if
+    // it lies on a cycle): it cannot be removed.
+    if (curId != entry() && has_one_child(curId) && has_one_parent(curId)) {
       basic_block_t &parent = get_parent(curId);
       basic_block_t &child = get_child(curId);
 
